@@ -123,7 +123,7 @@ def install():
 class Sandbox:
     def __init__(self, root):
         install()
-        self.root = os.path.abspath(root)
+        self.root = os.path.realpath(root)
         self.active = False
         self.events = []
         self.answers = []
@@ -168,7 +168,15 @@ class Sandbox:
                 return None
         if not os.path.isabs(p):
             p = os.path.join(self.root, p)  # cwd is the sandbox root
-        p = os.path.normpath(p)
+        # where the kernel will look: the directory part is resolved the way
+        # the kernel does ("link/../x" is not "x" when link is a symlink to a
+        # directory elsewhere); the last component is kept, a link that IS the
+        # target stays that link
+        d, b = os.path.split(p)
+        if b in ("", ".", ".."):
+            p = os.path.realpath(p)
+        else:
+            p = os.path.join(os.path.realpath(d), b)
         if p == self.root:
             return "."
         if p.startswith(self.root + "/"):
